@@ -5,10 +5,14 @@ package collection
 // log their first and last statement; the recorded histories are validated by TLC against
 // spec/MemCacheTake.tla.  Nothing is judged here; scheduling is left to the Go runtime, a gate
 // only makes it likely that callers overlap (any outcome is a legal input of the validation).
-// Two shapes: "gated" (few callers, two keys, the first fetch is held open while the others
-// arrive) and "stagger" (many callers on one fresh key, started a few microseconds apart, with a
-// very short fetch: callers that miss the cache just before the value is stored and reach the
-// flight group just after the flight is gone).
+// Three shapes: "gated" (few callers, two keys, the first fetch is held open while the others
+// arrive; every successful Take is followed by a Get of its caller and every round ends with a Get
+// of every key), "twocache" (the same on TWO cache instances alive at the same time and asked for
+// the same keys: the first calls of two goroutines go to different instances with the same key, so
+// their gated fetches overlap; every event carries the cache id and every fetched value names the
+// cache whose fetch function produced it) and "stagger" (many callers on one fresh key, started a
+// few microseconds apart, with a very short fetch: callers that miss the cache just before the
+// value is stored and reach the flight group just after the flight is gone).
 
 import (
 	"math/rand"
@@ -38,71 +42,132 @@ func TestVerifC17Take(t *testing.T) {
 	maxProcs := kit.EnvInt("VERIF_PROCS", 5)
 	rng := rand.New(rand.NewSource(kit.Seed()*7919 + int64(kit.EnvInt("GOMAXPROCS", 0))))
 	keys := []string{"a", "b"}
-	if kit.Env("VERIF_SHAPE", "gated") == "stagger" {
+	shape := kit.Env("VERIF_SHAPE", "gated")
+	if shape == "stagger" {
 		c17TakeStagger(rep, tr, rng, rounds, maxProcs)
 		return
 	}
+	// "gated": one cache; "twocache": two caches used at the same time with the same keys
+	ncaches := 1
+	if shape == "twocache" {
+		ncaches = 2
+	}
+	hold := 2 * time.Millisecond
+	kind := "take"
+	if ncaches > 1 {
+		hold = 20 * time.Millisecond
+		kind = "twocache"
+	}
 	for r := 0; r < rounds; r++ {
-		cache, err := NewCache(time.Hour)
-		if err != nil {
-			rep.Put(kit.Verdict{Case: r, Infra: true, Msg: err.Error()})
-			return
+		caches := make([]*Cache, ncaches)
+		for i := range caches {
+			c, err := NewCache(time.Hour)
+			if err != nil {
+				rep.Put(kit.Verdict{Case: r, Infra: true, Msg: err.Error()})
+				return
+			}
+			caches[i] = c
 		}
 		n := 2 + rng.Intn(maxProcs-1)
 		calls := 1 + rng.Intn(3)
 		failPct := []int{0, 30, 100}[rng.Intn(3)]
-		tr.Emit(kit.M{"e": "reset", "kind": "take", "n": n})
+		tr.Emit(kit.M{"e": "reset", "kind": kind, "n": n, "caches": ncaches})
 		var invs atomic.Int64
 		var vals atomic.Int64
 		var wg sync.WaitGroup
 		// per-goroutine plans are drawn before the goroutines start (the rng is not shared)
 		type plan struct {
-			key  string
-			fail bool
+			cache int // 1-based id of the cache instance
+			key   string
+			fail  bool
 		}
 		plans := make([][]plan, n)
 		for p := 0; p < n; p++ {
 			for c := 0; c < calls; c++ {
-				plans[p] = append(plans[p], plan{key: keys[rng.Intn(len(keys))], fail: rng.Intn(100) < failPct})
+				plans[p] = append(plans[p], plan{cache: 1 + rng.Intn(ncaches), key: keys[rng.Intn(len(keys))],
+					fail: rng.Intn(100) < failPct})
 			}
 		}
+		// two caches: the first calls of the first two goroutines ask DIFFERENT caches for the SAME key k0,
+		// and a fetch of k0 is also held until a fetch of k0 has begun on the other cache (or `hold`)
+		k0 := ""
+		var began [3]atomic.Bool
+		if ncaches > 1 {
+			k0 = keys[rng.Intn(len(keys))]
+			plans[0][0].cache, plans[0][0].key = 1, k0
+			plans[1][0].cache, plans[1][0].key = 2, k0
+		}
 		want := int64(n)
+		// get logs one Get on cache id c (gi before, gr after the call) as process p
+		get := func(p, c int, k string) {
+			tr.Emit(kit.M{"e": "gi", "p": p, "c": c, "k": k})
+			val, ok := caches[c-1].Get(k)
+			iv := 0
+			if ok {
+				if x, isInt := val.(int); isInt {
+					iv = x
+				} else {
+					iv = -1
+				}
+			}
+			tr.Emit(kit.M{"e": "gr", "p": p, "c": c, "k": k, "hit": ok, "v": iv})
+		}
 		for p := 0; p < n; p++ {
 			wg.Add(1)
 			go func(p int) {
 				defer wg.Done()
 				for _, pl := range plans[p] {
-					k := pl.key
-					tr.Emit(kit.M{"e": "inv", "p": p, "k": k})
+					k, c := pl.key, pl.cache
+					tr.Emit(kit.M{"e": "inv", "p": p, "c": c, "k": k})
 					invs.Add(1)
-					val, err := cache.Take(k, func() (any, error) {
-						tr.Emit(kit.M{"e": "fb", "p": p, "k": k})
-						// hold the fetch until every goroutine has invoked its first call (or 2 ms)
-						deadline := time.Now().Add(2 * time.Millisecond)
+					val, err := caches[c-1].Take(k, func() (any, error) {
+						tr.Emit(kit.M{"e": "fb", "p": p, "c": c, "k": k})
+						// hold the fetch until every goroutine has invoked its first call (or `hold`)
+						deadline := time.Now().Add(hold)
 						for invs.Load() < want && time.Now().Before(deadline) {
 							time.Sleep(20 * time.Microsecond)
 						}
+						if k == k0 {
+							began[c].Store(true)
+							for !began[3-c].Load() && time.Now().Before(deadline) {
+								time.Sleep(20 * time.Microsecond)
+							}
+						}
 						time.Sleep(50 * time.Microsecond)
 						if pl.fail {
-							tr.Emit(kit.M{"e": "fe", "p": p, "k": k, "ok": false, "v": 0})
+							tr.Emit(kit.M{"e": "fe", "p": p, "c": c, "k": k, "ok": false, "v": 0})
 							return nil, c17ErrFetch
 						}
-						v := int(vals.Add(1))
-						tr.Emit(kit.M{"e": "fe", "p": p, "k": k, "ok": true, "v": v})
+						// values are unique in the round and name the cache whose fetch function made them
+						v := c*1000 + int(vals.Add(1))
+						tr.Emit(kit.M{"e": "fe", "p": p, "c": c, "k": k, "ok": true, "v": v})
 						return v, nil
 					})
 					if err != nil {
-						tr.Emit(kit.M{"e": "ret", "p": p, "k": k, "err": true, "v": 0, "own": err == c17ErrFetch})
+						tr.Emit(kit.M{"e": "ret", "p": p, "c": c, "k": k, "err": true, "v": 0, "own": err == c17ErrFetch})
 					} else {
-						iv, _ := val.(int)
-						tr.Emit(kit.M{"e": "ret", "p": p, "k": k, "err": false, "v": iv})
+						iv, isInt := val.(int)
+						if !isInt {
+							iv = -1
+						}
+						tr.Emit(kit.M{"e": "ret", "p": p, "c": c, "k": k, "err": false, "v": iv})
+						// a successful Take leaves the key in ITS cache
+						get(p, c, k)
 					}
 				}
 			}(p)
 		}
 		wg.Wait()
-		cache.timingWheel.Stop()
-		rep.Put(kit.Verdict{Case: r, OK: true, Steps: n * calls})
+		// at quiescence: what every cache holds for every key
+		for c := 1; c <= ncaches; c++ {
+			for _, k := range keys {
+				get(n, c, k)
+			}
+		}
+		for _, c := range caches {
+			c.timingWheel.Stop()
+		}
+		rep.Put(kit.Verdict{Case: r, OK: true, Steps: n*calls + ncaches*len(keys)})
 	}
 }
 
@@ -148,23 +213,23 @@ func c17TakeStagger(rep *kit.Reporter, tr *kit.Tracer, rng *rand.Rand, rounds, n
 					x += int64(i)
 				}
 				sink.Add(x)
-				log(kit.M{"e": "inv", "p": p, "k": "a"})
+				log(kit.M{"e": "inv", "p": p, "c": 1, "k": "a"})
 				val, err := cache.Take("a", func() (any, error) {
-					log(kit.M{"e": "fb", "p": p, "k": "a"})
+					log(kit.M{"e": "fb", "p": p, "c": 1, "k": "a"})
 					y := int64(0)
 					for i := 0; i < work; i++ {
 						y += int64(i)
 					}
 					sink.Add(y)
 					v := int(vals.Add(1))
-					log(kit.M{"e": "fe", "p": p, "k": "a", "ok": true, "v": v})
+					log(kit.M{"e": "fe", "p": p, "c": 1, "k": "a", "ok": true, "v": v})
 					return v, nil
 				})
 				if err != nil {
-					log(kit.M{"e": "ret", "p": p, "k": "a", "err": true, "v": 0, "own": err == c17ErrFetch})
+					log(kit.M{"e": "ret", "p": p, "c": 1, "k": "a", "err": true, "v": 0, "own": err == c17ErrFetch})
 				} else {
 					iv, _ := val.(int)
-					log(kit.M{"e": "ret", "p": p, "k": "a", "err": false, "v": iv})
+					log(kit.M{"e": "ret", "p": p, "c": 1, "k": "a", "err": false, "v": iv})
 				}
 			}(p)
 		}
